@@ -183,11 +183,11 @@ impl Tiering {
         match tier {
             Tier::Quick => Tiering {
                 tier,
-                direct: Plan { lvl: Lvl::Small, max_positions: 160, light: false },
-                wrapped: Plan { lvl: Lvl::Small, max_positions: 40, light: true },
+                direct: Plan { lvl: Lvl::Small, max_positions: 300, light: false },
+                wrapped: Plan { lvl: Lvl::Small, max_positions: 80, light: true },
                 blind: Blind { all_len: 2, alpha_len: 5 },
                 blind_wrapped: Blind { all_len: 1, alpha_len: 4 },
-                bomb_depths: vec![10, 300, 20_000, 200_000],
+                bomb_depths: vec![10, 300, 8_000, 20_000, 200_000],
                 worlds: 1,
             },
             Tier::Thorough => Tiering {
